@@ -133,11 +133,50 @@ func guardCmp1(name, xRe, ops, yRe string) Guard {
 			return false
 		}
 		x, y := w.arith(a.X), w.arith(a.Y)
-		if okOps[a.Op.String()] && xr.MatchString(x) && yr.MatchString(y) {
+		try := func(op token.Token, x, y string) bool {
+			if okOps[op.String()] && xr.MatchString(x) && yr.MatchString(y) {
+				return true
+			}
+			return okOps[flipOp(op).String()] && xr.MatchString(y) && yr.MatchString(x)
+		}
+		if try(a.Op, x, y) {
 			return true
 		}
-		if okOps[flipOp(a.Op).String()] && xr.MatchString(y) && yr.MatchString(x) {
-			return true
+		// over the integers `v >= k` is `v > k-1` and `v <= k` is `v < k+1` (and the reverse): a bound
+		// written with the neighbouring constant is the same bound
+		alt := func(v ssa.Value, k int64, op token.Token, constOnRight bool) bool {
+			if !isIntegral(v) {
+				return false
+			}
+			// normalise to "v op k"
+			if !constOnRight {
+				op = flipOp(op)
+			}
+			var op2 token.Token
+			var k2 int64
+			switch op {
+			case token.GEQ:
+				op2, k2 = token.GTR, k-1
+			case token.GTR:
+				op2, k2 = token.GEQ, k+1
+			case token.LEQ:
+				op2, k2 = token.LSS, k+1
+			case token.LSS:
+				op2, k2 = token.LEQ, k-1
+			default:
+				return false
+			}
+			return try(op2, w.arith(v), fmt.Sprint(k2))
+		}
+		if k, isK := constInt(a.Y); isK {
+			if _, xK := constInt(a.X); !xK && alt(a.X, k, a.Op, true) {
+				return true
+			}
+		}
+		if k, isK := constInt(a.X); isK {
+			if _, yK := constInt(a.Y); !yK && alt(a.Y, k, a.Op, false) {
+				return true
+			}
 		}
 		return false
 	}}
